@@ -5,3 +5,4 @@ import FpVerif.Properties.C01
 #print axioms Fp.C01.ja3_of_hello
 #print axioms Fp.C01.ja3_function_of_hello
 #print axioms Fp.C01.sampleHello_wf
+#print axioms Fp.C01.header_delivered
